@@ -205,6 +205,25 @@ pub fn scenarios(prop: &str, tier: &str) -> Vec<Arc<dyn Scenario>> {
                 }
             }
             if prop == "C01" || prop == "C07" {
+                // leveled cascade: with a 1-byte level target every level is over capacity, so the
+                // strategy keeps opening a new L1 above the populated levels and picks L(k) -> L(k+1)
+                // merges by score; three keys, every write flushed and followed by one or two
+                // leveled compactions
+                let mut al = Alphabet::default();
+                for k in 0..3u8 {
+                    for del in [false, true] {
+                        let w = if del { Op::Del { k } } else { Op::Put { k, big: false } };
+                        al.extra.push(Op::Seq { ops: vec![w.clone(), Op::Flush { w: Wm::Tight }, Op::Leveled { w: Wm::Tight, p: 2 }] });
+                        al.extra.push(Op::Seq { ops: vec![w, Op::Flush { w: Wm::Tight }] });
+                    }
+                }
+                al.extra.push(Op::Leveled { w: Wm::Tight, p: 2 });
+                al.extra.push(Op::Seq { ops: vec![Op::Batch { puts: vec![0], dels: vec![2] }, Op::Flush { w: Wm::Tight }] });
+                al.reopen = !quick;
+                let bd = if quick { bs(4, 1, 0, 0, 0) } else { bs(5, 2, 0, 1, 0) };
+                v.push(std(&format!("{prop}-cascade-k3"), TreeCfg::small(keys_abc()), al, bd, vec![vec![]], oracle));
+            }
+            if prop == "C01" || prop == "C07" {
                 // data parked in the deep levels (L5 / L6) with L1..L4 empty, then the leveled strategy
                 // decides where the next L0 run goes
                 let mut ad = Alphabet::default();
@@ -805,6 +824,7 @@ pub fn scenarios(prop: &str, tier: &str) -> Vec<Arc<dyn Scenario>> {
         "C13" => {
             let mut a = if quick { Alphabet::lean() } else { Alphabet::core() };
             a.wdel_discipline = true;
+            a.wdel_ingest = true;
             a.snap = true;
             let bd = if quick { b(3, 2, 1, 1) } else { b(4, 3, 2, 1) };
             v.push(std(
